@@ -90,6 +90,11 @@ CHECKS = {
    "round-trip / differential property testing of byte formats (independent LE/BE readers; containers built with generated member order; FIFO and loopback-TCP read segmentation with generated chunk sizes)",
    "Codecs on raw bit patterns; FileSink->FileSource for five sample types under drip schedules; SigMF recording pairs and tar archives with members in generated order plus unrelated and malformed variants; AuEncode->AuDecode and the repository's .au recording; FileSource on a FIFO and TcpSource on loopback with the byte stream cut at generated points incl. 1-byte reads and splits inside a sample; all compared with independent readers of the same bytes.",
    "FIFO/TCP reads are paced so that blocking reads always find data; AU header layout = the encoder's", "DESIGN.md §5 C14"),
+
+ "C15": ("E7 fuzz entries (+ E2 drip driver)", "exploration",
+   "fuzzing with an in-target oracle: proptest-generated and seed-mutated byte inputs per target plus enumerated degenerate sets (quick); coverage-guided libFuzzer + ASan campaigns on the same entry functions (thorough)",
+   "Eleven byte-level targets decode the input into (parameters, content, drip schedule), build fresh blocks and drive them to quiescence; any unwind out of work()/constructor/parser, an idle spin or a missed step bound is a violation. All bursts up to length 6 (8) over {-1,0,1,inf} for Wpcr/Midpointer and 2322 AU header field mutations are enumerated. The thorough tier builds /verif/harness/fuzz with cargo-fuzz (nightly, ASan) and runs 30k executions per target from the seed corpus in /verif/corpus.",
+   "bit-stream consumers get {0,1}; constructor parameter assertions are configuration refusals", "DESIGN.md §5 C15"),
 }
 
 NOT_YET = {}
@@ -138,6 +143,8 @@ def main():
              "kind_free_text": "recipe -> graph (built twice), sequential reference executor, wrapper blocks for cancellation/failure accounting"},
             {"name": "E6 OS fault harness", "path": "harness/src/osfault.rs", "serves_properties": ["C17", "C18"],
              "kind_free_text": "/proc readers; the harness binary re-executes itself in child modes (rlimit, mapcount, sink) for rlimits, map-count exhaustion and SIGKILL"},
+            {"name": "E7 fuzz entries", "path": "harness/src/fuzz_entry.rs, harness/fuzz/ (cargo-fuzz), corpus/", "serves_properties": ["C15"],
+             "kind_free_text": "byte -> structured-argument decoders with the oracle inside the target; shared by proptest runs, libFuzzer+ASan campaigns and single-input replay"},
             {"name": "E3 reference models", "path": "harness/src/refmodel.rs", "serves_properties": ["C10", "C11", "C13", "C14", "C20"],
              "kind_free_text": "independent executable specifications (bitwise CRC, HDLC framer, resampler index map, LFSR, DFT, ...)"},
         ],
